@@ -124,8 +124,10 @@ def run(rep, tier, seed):
         scripts.append(hint_session(rng, [c for c in confs if c[0].startswith("fat32")][i % 2], i // 2))
     for i in range(6 if tier == "quick" else 80):
         scripts.append(free_only_session(rng, [c for c in confs if c[0].startswith("fat32")][i % 2]))
+    for i in range(6 if tier == "quick" else 100):
+        scripts.append(sessions.full_dir_session(rng, "root" if i % 3 else "chain"))
     judged = sessions.run_judged(scripts, flags=("infos",), shards=16)
-    nstats = 0; nnospace = 0; nunmount32 = 0
+    nstats = 0; nnospace = 0; nunmount32 = 0; ncreate_nospace = 0
     for jd in judged:
         rep.count()
         f = sc.Findings(jd)
@@ -150,6 +152,36 @@ def run(rep, tier, seed):
                     break
             if o.kind == "err" and o.payload.split(" ")[0] == "NotEnoughSpace":
                 nnospace += 1
+                if name in ("create_file", "create_dir", "rename"):
+                    # justified only when the clusters the call needs are not there, or when the destination is the fixed
+                    # root and no run of free slots is long enough for the entry (room computed from the raw root region)
+                    t = o.line.split(" ")
+                    try:
+                        path = bytes.fromhex(t[4] if name == "rename" else t[2]).decode("utf-8")
+                        dh = t[3] if name == "rename" else t[1]
+                    except (ValueError, IndexError):
+                        path = None
+                    if path is not None:
+                        final = path.strip("/").split("/")[-1]
+                        needed = (len(final.encode("utf-16-le")) // 2 + 12) // 13 + 1
+                        root_possible = dh == "0" and "/" not in path.strip("/") and info["bits"] != "32"
+                        need_clusters = 2 if name == "create_dir" else 1
+                        room = int(info.get("rootroom", "-1"))
+                        ncreate_nospace += 1
+                        prev = jd.info.get(oi - 1)
+                        if prev is not None and prev["free"] != info["free"]:
+                            ok = False
+                            rep.violation("[C05] %s failed with NotEnoughSpace but the number of free entries in the raw table went from %s to %s "
+                                          "(a failed call must give back what it allocated)" % (sc.short(o.line, 60), prev["free"], info["free"]),
+                                          {"script": sc.script_prefix(jd, oi)})
+                            break
+                        if int(info["free"]) >= need_clusters and (not root_possible or room >= needed):
+                            ok = False
+                            rep.violation("[C05] %s -> NotEnoughSpace although the raw table has %s free clusters%s" % (
+                                sc.short(o.line, 60), info["free"],
+                                " and the fixed root has a run of %d free slots (the entry needs %d)" % (room, needed) if root_possible else ""),
+                                {"script": sc.script_prefix(jd, oi)})
+                            break
                 if name in ("write", "write_all", "write_pat") and int(info["free"]) != 0:
                     ok = False
                     rep.violation("[C05] %s -> NotEnoughSpace although the raw table still has %s free clusters" % (sc.short(o.line, 60), info["free"]),
@@ -184,6 +216,7 @@ def run(rep, tier, seed):
             rep.distinct(tuple(jd.script[6:]))
     rep.cov["stats_compared"] = nstats
     rep.cov["nospace_outcomes"] = nnospace
+    rep.cov["nospace_on_create_or_rename_judged"] = ncreate_nospace
     rep.cov["fat32_unmounts_checked"] = nunmount32
     rep.cov["traces_validated_against_impl"] = len(judged)
     rep.cov["distribution"] = sc.distribution(judged)
